@@ -292,6 +292,9 @@ def check_C03(tier, seed, t0):
     # start vector in the null space of the operator: breakdown continued in the B-inner product
     descs += ["cls=greginv;ty=d;fam=nullA;n=%d;nev=2;ncv=7;seed=%d;hist=N,V1,C0,V1,C0;sv1=e1;args0=%d:%d:-10:3;uplo=ll;store=ss;meas=1" % (12 + i, 300 * seed + i, [0, 3, 7][i % 3], [30, 2, 30][i % 3])
               for i in range(n_of(tier, 6, 24))]
+    # the same with an ill-conditioned, scaled B: the correction loop of expand_basis runs in the B-inner product
+    descs += ["cls=%s;ty=d;fam=nullA;n=%d;nev=2;ncv=7;seed=%d;hist=N,V1,C0;sv1=e1;args0=%d:30:-8:3;uplo=ll;store=dd;sigma=0.37;meas=1;lgcB=%d;bsc=%d" % (["gsi", "gcay"][i % 2], 12 + i, 700 * seed + i, [0, 3, 7][i % 3], [8, 14][(i // 2) % 2], [0, 3][(i // 4) % 2])
+              for i in range(n_of(tier, 8, 24))]
     models = [("MC_IR.tla", "IR_quick.cfg" if tier == "quick" else "IR_design.cfg", 8)]
     return ir_flow("C03", tier, seed, descs, HERM_NUM, models, COMMON_ASSUME, t0, neg_models=IR_NEG)
 
@@ -327,6 +330,8 @@ def check_C07(tier, seed, t0):
     descs += ["cls=greginv;ty=d;fam=nullA;n=%d;nev=2;ncv=7;seed=%d;hist=N,V1,C0,V1,C0;sv1=e1;args0=%d:%d:-10:3;uplo=ll;store=ss;meas=2" % (12 + i, 100 * seed + i, [0, 3, 7][i % 3], [30, 2, 0][i % 3])
               for i in range(n_of(tier, 4, 16))]
     descs += ["cls=gchol;ty=d;fam=nullA;n=%d;nev=2;ncv=7;seed=%d;hist=N,V1,C0;sv1=e1;args0=0:30:-10:3;uplo=ll;store=dd;meas=2" % (12 + i, 200 * seed + i) for i in range(2)]
+    descs += ["cls=%s;ty=d;fam=nullA;n=%d;nev=2;ncv=7;seed=%d;hist=N,V1,C0;sv1=e1;args0=%d:30:-8:3;uplo=ll;store=dd;sigma=0.37;meas=2;lgcB=%d;bsc=%d" % (["gsi", "gcay"][i % 2], 12 + i, 800 * seed + i, [0, 3, 7][i % 3], [8, 14][(i // 2) % 2], [0, 3][(i // 4) % 2])
+              for i in range(n_of(tier, 8, 16))]
     models = [("MC_IR.tla", "IR_quick.cfg" if tier == "quick" else "IR_design.cfg", 8), ("MC_Krylov.tla", "Kry_arn.cfg", 4), ("MC_Krylov.tla", "Kry_lan.cfg", 4)]
     # specification -> code -> specification: TLC enumerates the call sequences of the factorization object (spec/Krylov.tla), the harness
     # executes each on the real Arnoldi / Lanczos classes, TraceKrylov validates what was recorded against the same operators
